@@ -73,14 +73,14 @@ Fixpoint prep_all (mdf nz : bool) (l : leaf) (od : list (nat * tq)) : option (li
     | _, _ => None
     end
   end.
-Definition rows_eqb : list (list Q) -> list (list Q) -> bool := list_eqb (list_eqb Qeq_bool).
-Definition check_ippo_prep (fixed mdf nz : bool) (groups : list (nat * nat)) (agent_ids : list nat) (l : leaf)
+Definition rows_eqb (tol : Q) : list (list Q) -> list (list Q) -> bool := list_eqb (list_eqb (q_close tol)).
+Definition check_ippo_prep (tol : Q) (fixed mdf nz : bool) (groups : list (nat * nat)) (agent_ids : list nat) (l : leaf)
            (od : list (nat * tq)) (seen : option (list (nat * list (list Q)))) : bool :=
   let group := fun a => match lookup a groups with Some g => g | None => 0 end in
   let gs := dedup [] (map group agent_ids) in
   match prep_all mdf nz l od, seen with
   | Some odr, Some s =>
-    list_eqb (fun p q => Nat.eqb (fst p) (fst q) && rows_eqb (snd p) (snd q))
+    list_eqb (fun p q => Nat.eqb (fst p) (fst q) && rows_eqb tol (snd p) (snd q))
              (map (fun g => (g, ippo_batch group fixed agent_ids odr g)) gs) s
   | None, None => true
   | _, _ => false
